@@ -21,12 +21,22 @@ fn harness_fail(msg: &str) -> Failure {
     Failure { signature: "C02:harness".into(), detail: format!("HARNESS {}", msg) }
 }
 
+/// a case whose indicator is built with Default::default(); its cfg holds the documented default parameters
+#[derive(Clone, Debug, Serialize, Deserialize)]
+pub struct DCase {
+    pub case: Case,
+}
+
 pub fn check(c: &Case, ctx: &mut Ctx) -> Result<(), Failure> {
+    check_with(c, ctx, false)
+}
+
+pub fn check_with(c: &Case, ctx: &mut Ctx, via_default: bool) -> Result<(), Failure> {
     let k = c.cfg.kind;
     let p = c.cfg.params();
     let n = c.cfg.n();
     let m = p.m;
-    let mut ind = Ind::build(k, &p).map_err(|_| harness_fail("build"))?;
+    let mut ind = if via_default { Ind::default_of(k) } else { Ind::build(k, &p).map_err(|_| harness_fail("build"))? };
     let len = if c.scalar { c.xs.len() } else { c.bars.len() };
     let mut big = 0.0f64;
     let mut fp = Fp::new("C02");
@@ -243,6 +253,24 @@ fn strategy(tier: Tier) -> BoxedStrategy<Case> {
             bars: vec![]
         }),
         8 => cfg_among(&BK, 1024, multiplier_any).prop_flat_map(move |cfg| { let ml = if cfg.kind == Kind::Ce { maxlen.max(3 * cfg.n() + 20) } else { maxlen }; (Just(cfg), prop_oneof![bar_stream(false, 1, ml), bar_stream(true, 1, ml)]) }).prop_map(|(cfg, s)| Case { cfg, scalar: false, xs: vec![], bars: s.bars }),
+        // bars as a user type may deliver them: the documented formulas are defined for any three finite numbers,
+        // so crossed bars (high < low) and closes outside [low, high] are in the domain ("every finite stream of
+        // ... bars"); only DataItem's builder insists on consistency
+        2 => cfg_among(&BK, 300, multiplier_any).prop_flat_map(move |cfg| (Just(cfg), prop_oneof![bar_stream(false, 1, maxlen), bar_stream(true, 1, maxlen)], proptest::collection::vec(0u8..10, 61))).prop_map(|(cfg, s, mask)| {
+            let bars = s.bars.iter().enumerate().map(|(i, b)| {
+                let mut b = *b;
+                match mask[i % 61] {
+                    5 => std::mem::swap(&mut b.h, &mut b.l),
+                    6 => b.c = b.h + (b.h - b.l) * 0.5 + b.h.abs() * 0.01,
+                    7 => b.c = b.l - (b.h - b.l) * 0.5 - b.l.abs() * 0.01,
+                    8 => { std::mem::swap(&mut b.h, &mut b.l); b.c = b.o; }
+                    9 => { let t = b.h; b.h = b.c; b.c = t; }
+                    _ => {}
+                }
+                b
+            }).collect();
+            Case { cfg, scalar: false, xs: vec![], bars }
+        }),
     ]
     .boxed()
 }
@@ -260,12 +288,32 @@ fn long_strategy() -> BoxedStrategy<Case> {
 }
 
 pub fn run(g: &mut Global) {
-    g.rule = "exhaustive: scalar sequences over {-3,-1,0,0.1,2,10} for EMA/ATR/KC(two multipliers) with periods 1..=5, TR, and MACD over all (fast,slow,signal) in {1,2,3}^3; bar sequences over a 7-bar alphabet realising every TrueRange branch for TR, ATR, KC, CE with periods 1..=5; random: proptest cases with periods up to 1024, independent MACD triples, multipliers of any sign, multi-regime scalar streams of any sign or valid bars. Every prefix compared with a double-double evaluation of the documented recursion over the whole history (EMA reference cross-checked against its closed form). Non-trivial = at least 3 inputs, at least two distinct inputs and, for bar input, at least two different TrueRange branches were the maximum; distinct by hash of (kind, parameters, path, inputs).".into();
+    g.rule = "exhaustive: scalar sequences over {-3,-1,0,0.1,2,10} for EMA/ATR/KC(two multipliers) with periods 1..=5, TR, and MACD over all (fast,slow,signal) in {1,2,3}^3; bar sequences over a 7-bar alphabet realising every TrueRange branch for TR, ATR, KC, CE with periods 1..=5; random: proptest cases with periods up to 1024, independent MACD triples, multipliers of any sign, multi-regime scalar streams of any sign, valid bars, or bars as a user type may deliver them (crossed high/low, close outside the range). Every prefix compared with a double-double evaluation of the documented recursion over the whole history (EMA reference cross-checked against its closed form). Non-trivial = at least 3 inputs, at least two distinct inputs and, for bar input, at least two different TrueRange branches were the maximum; distinct by hash of (kind, parameters, path, inputs).".into();
     g.assumptions = vec![
         "reference = double-double recursion with alpha = 2/(n+1) exact".into(),
         "tolerance tau(t)*M, times max(1,|multiplier|) for KC/CE levels (rounding of width*multiplier is relative to that product)".into(),
         "M = largest |input| (bars: over high, low, close)".into(),
     ];
+    // instances obtained from Default::default() follow the same formulas with the documented default parameters
+    // (a Default assembled from component defaults can report one period and compute with another)
+    let seedd = g.seed;
+    let nsk = SK.len() as u64;
+    let nbk = BK.len() as u64;
+    g.exhaustive(
+        "defaults",
+        (nsk + nbk) * 16,
+        &move |i| {
+            let j = i % (nsk + nbk);
+            let r = i / (nsk + nbk);
+            let mut gen = crate::props::c13::Gen::new(seedd ^ (i + 1).wrapping_mul(0x9E3779B97F4A7C15), [0usize, 3, 1, 4][(r % 4) as usize], 3.7, 5);
+            if j < nsk {
+                DCase { case: Case { cfg: crate::hist::cfg_default(SK[j as usize]), scalar: true, xs: (0..200).map(|_| X(gen.next())).collect(), bars: vec![] } }
+            } else {
+                DCase { case: Case { cfg: crate::hist::cfg_default(BK[(j - nsk) as usize]), scalar: false, xs: vec![], bars: (0..200).map(|_| gen.bar()).collect() } }
+            }
+        },
+        &|d: &DCase, ctx: &mut Ctx| check_with(&d.case, ctx, true),
+    );
     let sc = scalar_cfgs();
     let bc = bar_cfgs();
     let d1 = g.tier.pick(6usize, 8usize);
